@@ -149,6 +149,7 @@ type Exec struct {
 	hashLog       [][]*Term
 	inEnv         bool
 	skipPhis      bool
+	pathUnknown   bool
 	rawInit       bool
 	deadline      time.Time
 	blockTicks    int
@@ -224,11 +225,17 @@ func (ex *Exec) pcSync() {
 		ex.pcHash = ex.pcHash[:len(ex.pc)]
 		ex.pcLits = ex.pcLits[:len(ex.pc)]
 	}
-	// the prefix may have been replaced (new path): verify the last shared literal
-	for len(ex.pcLits) > 0 && ex.pcLits[len(ex.pcLits)-1] != ex.pc[len(ex.pcLits)-1] {
-		delete(ex.pcSet, ex.pcLits[len(ex.pcLits)-1])
-		ex.pcLits = ex.pcLits[:len(ex.pcLits)-1]
-		ex.pcHash = ex.pcHash[:len(ex.pcHash)-1]
+	// within a path pc only grows (or is cut back to an earlier length);
+	// still, verify the indexed prefix is the current one
+	for i, l := range ex.pcLits {
+		if ex.pc[i] != l {
+			for _, d := range ex.pcLits[i:] {
+				delete(ex.pcSet, d)
+			}
+			ex.pcLits = ex.pcLits[:i]
+			ex.pcHash = ex.pcHash[:i]
+			break
+		}
 	}
 	for i := len(ex.pcLits); i < len(ex.pc); i++ {
 		l := ex.pc[i]
@@ -344,6 +351,7 @@ func (ex *Exec) modelVars() []*Term {
 }
 
 func (ex *Exec) noteUnknown(what string) {
+	ex.pathUnknown = true
 	msg := what
 	if len(ex.S.Errors) > 0 {
 		msg += ": " + ex.S.Errors[len(ex.S.Errors)-1]
